@@ -106,25 +106,26 @@ Theorem C06_sort_unique : forall d sp rows rows' r,
   sorted_part d sp rows r = sorted_part d sp rows' r.
 Proof. exact sorted_part_perm_eq. Qed.
 
-(* when the order is total inside every partition, any permutation of the input datapoints gives a permutation of the result *)
+(* when the order is total inside every partition (needed only by the functions that look at the order: everything but rank and
+   ratio_to_report), any permutation of the input datapoints gives a permutation of the result *)
 Theorem C06_window_perm : forall f sp d rows' d1,
-  Permutation (d_rows d) rows' -> total_order d sp = true ->
+  Permutation (d_rows d) rows' -> (needs_order f = true -> total_order d sp = true) ->
   d_analytic f sp d = Ok d1 ->
   exists d2, d_analytic f sp (mkD (d_ids d) (d_ms d) rows') = Ok d2 /\
              d_ids d2 = d_ids d1 /\ d_ms d2 = d_ms d1 /\ Permutation (d_rows d1) (d_rows d2).
 Proof. exact d_analytic_perm. Qed.
 Theorem C06_window_perm_error : forall f sp d rows' c,
-  Permutation (d_rows d) rows' -> total_order d sp = true ->
+  Permutation (d_rows d) rows' -> (needs_order f = true -> total_order d sp = true) ->
   d_analytic f sp d = Err c -> exists c', d_analytic f sp (mkD (d_ids d) (d_ms d) rows') = Err c'.
 Proof. exact d_analytic_perm_err. Qed.
 Theorem C06_window_perm_calc : forall d name f sp operand rows' d1,
-  Permutation (d_rows d) rows' -> total_order d sp = true ->
+  Permutation (d_rows d) rows' -> (needs_order f = true -> total_order d sp = true) ->
   d_calc_analytic d name f sp operand = Ok d1 ->
   exists d2, d_calc_analytic (mkD (d_ids d) (d_ms d) rows') name f sp operand = Ok d2 /\
              d_ids d2 = d_ids d1 /\ d_ms d2 = d_ms d1 /\ Permutation (d_rows d1) (d_rows d2).
 Proof. exact d_calc_analytic_perm. Qed.
 Theorem C06_window_perm_calc_error : forall d name f sp operand rows' c,
-  Permutation (d_rows d) rows' -> total_order d sp = true ->
+  Permutation (d_rows d) rows' -> (needs_order f = true -> total_order d sp = true) ->
   d_calc_analytic d name f sp operand = Err c ->
   exists c', d_calc_analytic (mkD (d_ids d) (d_ms d) rows') name f sp operand = Err c'.
 Proof. exact d_calc_analytic_perm_err. Qed.
